@@ -340,7 +340,7 @@ namespace c11
           for_dims<1, dim>([&](auto dc) {
             constexpr int d = decltype(dc)::value;
             const auto& is = p->template get_index_set<d, 0>();
-            if(is.get_num_entities() != p->get_num_entities(d)) range("part topology count");
+            if(is.get_num_entities() != p->get_num_entities(d)) weird("part topology lists entities of a dimension the part does not declare (faces missing from the part)");
             for(Index i = 0; i < is.get_num_entities(); ++i) for(int k = 0; k < is.num_indices; ++k) if(is[i][k] >= pnv) range("part '" + nm + "' topology vertex index >= part vertex count");
           });
         for(const auto& kv : p->get_mesh_attributes())
